@@ -163,7 +163,11 @@ def tracker_step(ctx, q, S, rp):
                         st, m = q.check(r.pc, "track-panic")
                         ctx.ob(tag + "/no-panic", st == "unsat" or (False if st == "sat" else None), str(r.info))
                         if st == "sat":
-                            ctx.violation("tracker/track-panics/%s" % opname, "TypeTracker::track panics on Op%s: %s" % (opname, r.info), None)
+                            why, real = native_tracker_probe(rp, opname, has_rid, has_rt)
+                            if why and "panic" in why:
+                                ctx.violation("tracker/track-panics/%s" % opname, "TypeTracker::track panics on Op%s: %s" % (opname, why), {"cmd": real.get("cmd"), "real": real})
+                            else:
+                                ctx.inconclusive.append((tag + "/no-panic", "model-only panic edge %s" % (r.info,)))
                         continue
                     t1 = r.mem[("h", "tt")].fields[0]
                     pres1, flt1, wid1, sig1 = t1.fields
@@ -189,8 +193,45 @@ def tracker_step(ctx, q, S, rp):
                     st, m = q.check(r.pc + [z3.Or(*[x != y for x, y in zip(a, b)])], "track-step")
                     ctx.ob(tag, st == "unsat" or (False if st == "sat" else None))
                     if st == "sat":
-                        ctx.violation("tracker/step/%s" % opname, "after tracking Op%s (result id %s, result type %s) the tracker answers differently from the reference for id %s" % (
-                            opname, has_rid, has_rt, m.eval(probe, model_completion=True)), None)
+                        why, real = native_tracker_probe(rp, opname, has_rid, has_rt)
+                        if why:
+                            ctx.violation("tracker/step/%s" % opname, "after tracking Op%s (result id %s, result type %s) the tracker answers differently from the reference for id %s; "
+                                          "on the compiled crate: %s" % (opname, has_rid, has_rt, m.eval(probe, model_completion=True), why), {"cmd": real.get("cmd"), "real": real})
+                        else:
+                            ctx.inconclusive.append((tag, "model-only deviation of the tracker step; the compiled crate sizes the following literal as the reference says (%s)" % str(real)[:160]))
+
+
+def native_tracker_probe(rp, opname, has_rid, has_rt):
+    """The observable effect of one tracker step on the compiled crate: the width the parser gives to a literal that depends on
+    the tracked id afterwards. Only grammar-conforming shapes can be fed to the real parser. -> (deviation | None, answer)"""
+    le = c03.le
+    conforming = {"TypeInt": (True, False), "TypeFloat": (True, False), "TypeVoid": (True, False), "IAdd": (True, True), "Constant": (True, True), "Label": (True, False)}
+    if conforming.get(opname) != (has_rid, has_rt):
+        return None, {"note": "the shape is not grammar-conforming: no native probe"}
+    int64 = le(4 << 16 | 21) + le(1) + le(64) + le(0)
+    sw64 = lambda sel: le(6 << 16 | 251) + le(sel) + le(9) + le(5) + le(6) + le(9)          # one case with a two-word literal
+    sw32 = lambda sel: le(5 << 16 | 251) + le(sel) + le(9) + le(5) + le(9)
+    if opname == "TypeInt":
+        body, want = int64 + le(5 << 16 | 43) + le(1) + le(2) + le(5) + le(6), "LiteralBit64"
+    elif opname == "TypeFloat":
+        body, want = le(3 << 16 | 22) + le(1) + le(64) + le(5 << 16 | 43) + le(1) + le(2) + le(5) + le(6), "LiteralBit64"
+    elif opname == "TypeVoid":
+        body, want = le(2 << 16 | 19) + le(1) + le(4 << 16 | 43) + le(1) + le(2) + le(5), "LiteralBit32"
+    elif opname == "IAdd":
+        body, want = int64 + le(5 << 16 | 128) + le(1) + le(2) + le(3) + le(4) + sw64(2), "LiteralBit64"
+    elif opname == "Constant":
+        body, want = int64 + le(5 << 16 | 43) + le(1) + le(2) + le(5) + le(6) + sw64(2), "LiteralBit64"
+    else:
+        body, want = int64 + le(2 << 16 | 248) + le(2) + sw32(2), "LiteralBit32"
+    cmd = "parse_script %s C" % (c03.HEADER + body)
+    real = rp.ask(cmd)
+    real["cmd"] = cmd
+    if "panic" in real:
+        return "panics: %s" % real["panic"], real
+    last = (real.get("events") or [""])[-2] if real.get("result") == "Ok" and len(real.get("events", [])) >= 2 else ""
+    if real.get("result") != "Ok" or want not in last:
+        return "the literal after Op%s is not read as %s: result %s, last instruction %r" % (opname, want, real.get("result"), last), real
+    return None, real
 
 
 def selector_choice(ctx, S):
@@ -275,7 +316,8 @@ def statics(ctx, S):
                 i += 1
     ctx.ob("parser-reads-no-global-state/%d-functions" % count, not bad, str(bad[:3]) if bad else None)
     if bad:
-        ctx.violation("parser/global-state", "parser code references static %s" % bad[0][1], None)
+        # a static other than the grammar tables: whether it is mutable state cannot be told from the dump alone
+        ctx.inconclusive.append(("parser-reads-no-global-state", "parser code references static %s (in %s): independence of parses is not established" % (bad[0][1], bad[0][0])))
     newfn = [mf.parse_item(x[2]) for x in mf.find("new") if "binary/parser.rs" in x[0]]
     ok = False
     if len(newfn) == 1:
